@@ -9,6 +9,12 @@
    properties, the two array-valued ones (includes, headers) and the two object-valued
    ones (defines, functions).
 
+   A configuration also says by which ROUTE its properties reach the build (field "route"): flat in the
+   build properties, in their modes/<own mode> section, as a generic value overridden in that section,
+   in the section of the OTHER mode (must not take effect), as a device-level kernel default
+   (kernel/... or kernel/modes/<mode> of the device properties), or as a device-level default overridden
+   by the build properties.  The effective input is the merged value; the source text has no route.
+
    The system is the on-disk cache shared by processes: a map from cache keys to the
    configuration whose binary was compiled into that entry.  One action, Build(c), is one
    `device.buildKernel` call in a fresh process on one device (Serial or OpenMP, fixed per
@@ -33,7 +39,9 @@ CONSTANTS FocusGroups,  \* set of sets of property names; a behaviour varies one
           Modes,        \* subset of {"Serial", "OpenMP"}
           MaxWeight,    \* at most this many non-"e" properties per configuration
           MaxBuilds,    \* builds per behaviour
-          KeyVariant    \* "ideal" | "xor" | "tagged"
+          RouteWeight,  \* configurations with <= RouteWeight properties set are also generated for every
+                        \* non-flat route (0: flat only)
+          KeyVariant    \* "ideal" | "xor" | "tagged" | "rawhdr"
 
 VARIABLES mode,    \* the device of this behaviour
           focus,   \* the property group this behaviour varies
@@ -57,14 +65,22 @@ Kind(p) == IF p \in StrProps THEN "str" ELSE IF p \in ArrProps THEN "arr"
 Tokens == {"e", "a", "b"}
 Vals   == {"a", "b"}
 
-\* configurations that vary only the properties of group g, at most MaxWeight of them
-Ext(S, f) == [p \in AllProps |-> IF p \in S THEN f[p] ELSE "e"]
+Routes == {"flat", "mode", "generic+mode", "othermode", "dev", "devmode", "dev+flat"}
+Other(v) == IF v = "a" THEN "b" ELSE "a"
+
+\* configurations that vary only the properties of group g, at most MaxWeight of them; all properties of
+\* one configuration take the same route
+Ext(S, f, r) == [p \in AllProps \cup {"route"} |-> IF p = "route" THEN r ELSE IF p \in S THEN f[p] ELSE "e"]
+SubsetsUpTo(g, w) == {T \in SUBSET g : Cardinality(T) <= w}
 ConfigsOf(g) ==
-  UNION { {Ext(S, f) : f \in [S -> Vals]} : S \in {T \in SUBSET g : Cardinality(T) <= MaxWeight} }
+  UNION { {Ext(S, f, "flat") : f \in [S -> Vals]} : S \in SubsetsUpTo(g, MaxWeight) }
+  \cup UNION { UNION { {Ext(S, f, r) : f \in [S -> Vals]} : r \in Routes \ {"flat"} }
+              : S \in {T \in SubsetsUpTo(g, RouteWeight) : T \ {"source"} # {}} }
 Weight(c) == Cardinality({p \in AllProps : c[p] # "e"})
 
 \* the effective build inputs of the statement: every listed input counts
-Effective(c) == c
+\* (stated per route, independently of the layering that Merged transcribes)
+Effective(c) == [p \in AllProps |-> IF c["route"] = "othermode" /\ p # "source" THEN "e" ELSE c[p]]
 
 ---------------------------------------------------------------------------
 (* hashes *)
@@ -88,9 +104,26 @@ ModeHashed == <<"compiler", "compiler_flags", "compiler_env_script", "compiler_v
                 "include_occa", "link_occa">>
 \* TRANSCRIBED FROM kernelHeaderHash
 HeaderHashed == <<"defines", "functions", "includes", "headers">>
+\* TRANSCRIBED FROM device::kernelProperties / getModeSpecificProps / initialObjectProps: the properties the
+\* build uses are  device kernel defaults + device kernel/modes/<mode> + build props + build props' modes/<mode>,
+\* later layers win; a section for another mode is dropped
+LayerSeq == <<"dev", "devmode", "props", "propsmode">>
+Layer(c, L, p) ==
+  LET r == c["route"] v == c[p] IN
+  IF v = "e" \/ p = "source" THEN "e"
+  ELSE CASE L = "dev"       -> IF r = "dev" THEN v ELSE IF r = "dev+flat" THEN Other(v) ELSE "e"
+         [] L = "devmode"   -> IF r = "devmode" THEN v ELSE "e"
+         [] L = "props"     -> IF r \in {"flat", "dev+flat"} THEN v ELSE IF r = "generic+mode" THEN Other(v) ELSE "e"
+         [] L = "propsmode" -> IF r \in {"mode", "generic+mode"} THEN v ELSE "e"
+RECURSIVE LastSet(_, _, _)
+LastSet(c, p, i) == IF i = 0 THEN "e"
+                    ELSE IF Layer(c, LayerSeq[i], p) # "e" THEN Layer(c, LayerSeq[i], p) ELSE LastSet(c, p, i - 1)
+Merged(c) == [p \in AllProps |-> IF p = "source" THEN c[p] ELSE LastSet(c, p, Len(LayerSeq))]
+\* what the top level of the build properties alone holds (a defective composition may look only there)
+Raw(c) == [p \in AllProps |-> IF p = "source" THEN c[p] ELSE Layer(c, "props", p)]
 ValOf(c, p) == IF p \in DOMAIN c THEN c[p] ELSE "e"
 
-KeyXor(m, c) ==
+KeyXorOn(m, c) ==
   XorAll(DeviceAtoms(m) \o ModeTagAtoms(m)
          \o [i \in 1..Len(ModeHashed)   |-> DumpAtom(ModeHashed[i], ValOf(c, ModeHashed[i]))]
          \o [i \in 1..Len(HeaderHashed) |-> DumpAtom(HeaderHashed[i], ValOf(c, HeaderHashed[i]))]
@@ -98,16 +131,22 @@ KeyXor(m, c) ==
 
 \* the repaired composition: one name-tagged object per group, hashed as a whole
 Range(seq) == {seq[i] : i \in 1..Len(seq)}
-KeyTagged(m, c) ==
+KeyTaggedOn(m, c, ch) ==
   XorAll(DeviceAtoms(m) \o ModeTagAtoms(m)
          \o <<Atom("modekey", [p \in Range(ModeHashed) |-> ValOf(c, p)])>>
-         \o <<Atom("hdrkey",  [p \in Range(HeaderHashed) \cup {"okl"} |-> ValOf(c, p)])>>
+         \o <<Atom("hdrkey",  [p \in Range(HeaderHashed) \cup {"okl"} |-> ValOf(ch, p)])>>
          \o <<Atom("src", c["source"])>>)
+KeyXor(m, c)    == KeyXorOn(m, Merged(c))
+KeyTagged(m, c) == KeyTaggedOn(m, Merged(c), Merged(c))
+\* a defective variant kept to show that the model sees the route dimension: the header group is hashed
+\* from the top level of the build properties instead of the merged properties
+KeyRawHdr(m, c) == KeyTaggedOn(m, Merged(c), Raw(c))
 
 KeyIdeal(m, c) == {Atom("ideal", <<m, Effective(c)>>)}
 
 Key(m, c) == CASE KeyVariant = "xor"    -> KeyXor(m, c)
                [] KeyVariant = "tagged" -> KeyTagged(m, c)
+               [] KeyVariant = "rawhdr" -> KeyRawHdr(m, c)
                [] OTHER                 -> KeyIdeal(m, c)
 
 ---------------------------------------------------------------------------
